@@ -101,7 +101,9 @@ NLARGS_ATOMS = ['\\flag', '\\flag*', '\\ttl{H}', '\\ttl{H}\\label{a}', '\\ttl', 
                 # a macro declared through a pylatexenc-2 arguments parser object
                 '\\lgc', '\\lgc*', '\\lgc[a]{b}', '\\lgc*{b}', '\\lgc *', '\\lgd{a}', '\\lgd{a}*', '\\lgd',
                 # ... with blanks / a line end in front of a later argument (the star, the group)
-                '\\lgd{a} *', '\\lgd{a}\n*x', '\\lgd {a}  * ', '\\lgc* {b}', '\\lgc*\n{b}']
+                '\\lgd{a} *', '\\lgd{a}\n*x', '\\lgd {a}  * ', '\\lgc* {b}', '\\lgc*\n{b}',
+                # blanks / a line end before the closing delimiter of a list or group argument
+                '\\csl{a, b }', '\\csl{a,\n b\n}', '\\csl{ }', '\\csl{a , }', '\\chg{a }', '\\anyd( a )']
 
 
 def nlargs_strings(rng, count):
